@@ -1,9 +1,11 @@
 /-
   C19 — model of bfe_util/ipdict: `IPItems.InsertPair / Sort (sort, mergeItems, sort, reslice)` and
-  `IPTable.Search`.  Core-only.
+  `IPTable.Search`.  Core-only.  Mirrors the code AFTER the fix fixes/C19-nil-marker.md.
 
-  Addresses are the numeric value (`Nat < 2^128`) of the 16-byte `To16()` form; `bytes.Compare` on equal-length
-  slices is the numeric order.  A table entry is `(startIP, endIP)`.
+  An IP value of the table is either `nil` or a 16-byte slice (`To16()` form).  It is encoded as a `Nat`:
+  `0` = nil, `v + 1` = the 16-byte slice with big-endian value `v` (`encIP`).  `bytes.Compare` (nil < every
+  non-empty slice; equal-length slices compare numerically) is the order of the codes.
+  A table entry is `(startIP, endIP)`; the deletion marker of `mergeItems` is `(nil, nil)` = `(0, 0)`.
 
   Go code mirrored (bfe_util/ipdict/ipdict.go):
 
@@ -11,10 +13,11 @@
     checkMerge(i,j): if items[j].endIP >= items[i].startIP {
                         items[i].startIP = items[j].startIP
                         if items[j].endIP >= items[i].endIP { items[i].endIP = items[j].endIP }
-                        items[j] = (::, ::);  mergedNum++
-                        for k in (i, j): if items[k].endIP is :: or 0.0.0.0 {continue}; items[k] = (::, ::); mergedNum++ }
-    mergeItems: for i in [0, len-1): if items[i].endIP is :: or 0.0.0.0 {continue}
-                  for j in (i, len): if items[j].endIP is :: || items[i].endIP is 0.0.0.0 {continue}
+                        items[j] = (nil, nil);  mergedNum++
+                        for k in (i, j): if items[k].endIP == nil || items[k].startIP < items[i].startIP {continue}
+                                         items[k] = (nil, nil); mergedNum++ }
+    mergeItems: for i in [0, len-1): if items[i].endIP == nil {continue}
+                  for j in (i, len): if items[j].endIP == nil {continue}
                      mergedNum += checkMerge(i, j)
     Sort: sort.Sort(items); mergedNum := mergeItems(); sort.Sort(items); items = items[0 : len-mergedNum]
     Search: ipSet.Exist(ip16) || ( i := sort.Search(len, items[i].startIP <= ip16); i < len && items[i].endIP >= ip16 )
@@ -35,27 +38,31 @@ abbrev Item := Nat × Nat
 /-- `::ffff:0.0.0.0`, the 16-byte value that `IP.Equal(net.IPv4zero)` recognises. -/
 def v4zero : Nat := 0xffff00000000
 
-/-- the deletion marker `(net.IPv6zero, net.IPv6zero)` -/
+/-- code of a 16-byte IP with value `v` (`0` is the code of `nil`) -/
+def encIP (v : Nat) : Nat := v + 1
+
+/-- the deletion marker `(nil, nil)` -/
 def marker : Item := (0, 0)
 
-/-- `endIP.Equal(net.IPv6zero) || endIP.Equal(net.IPv4zero)` -/
-def isMarkEnd (e : Nat) : Bool := e == 0 || e == v4zero
+/-- `endIP == nil` -/
+def isMarkEnd (e : Nat) : Bool := e == 0
 
-/-- the `for k := i+1; k < j; k++` loop of `checkMerge` over the visited slice; returns the count of wiped items -/
-def wipe : List Item → List Item × Nat
+/-- the `for k := i+1; k < j; k++` loop of `checkMerge` over the visited slice (`s` = the new `items[i].startIP`);
+    returns the count of wiped items -/
+def wipe (s : Nat) : List Item → List Item × Nat
   | [] => ([], 0)
   | k :: ks =>
-    let r := wipe ks
-    if isMarkEnd k.2 then (k :: r.1, r.2) else (marker :: r.1, r.2 + 1)
+    let r := wipe s ks
+    if isMarkEnd k.2 || decide (k.1 < s) then (k :: r.1, r.2) else (marker :: r.1, r.2 + 1)
 
 /-- inner loop of `mergeItems` for a fixed `i` (`cur = items[i]`, `done = items[i+1..j-1]`, list arg = `items[j..]`) -/
 def scan (cur : Item) (done : List Item) : List Item → Nat → Item × List Item × Nat
   | [], m => (cur, done, m)
   | x :: todo, m =>
-    if x.2 == 0 || cur.2 == v4zero then scan cur (done ++ [x]) todo m
+    if x.2 == 0 then scan cur (done ++ [x]) todo m
     else if x.2 ≥ cur.1 then
       let cur' : Item := (x.1, if x.2 ≥ cur.2 then x.2 else cur.2)
-      let w := wipe done
+      let w := wipe x.1 done
       scan cur' (w.1 ++ [marker]) todo (m + 1 + w.2)
     else scan cur (done ++ [x]) todo m
 
@@ -78,12 +85,12 @@ def mergeItems (l : List Item) : List Item × Nat := mergeFrom l.length l
 def getI (a : List Item) (i : Nat) : Item := a.getD i marker
 
 /-- `for k := i+1; k < j; k++ { if marker-end {continue}; items[k] = marker; mergedNum++ }` (fuel = j - k) -/
-def wipeA : Nat → List Item → Nat → Nat → List Item × Nat
-  | 0, a, _, _ => (a, 0)
-  | fuel + 1, a, j, k =>
+def wipeA : Nat → List Item → Nat → Nat → Nat → List Item × Nat
+  | 0, a, _, _, _ => (a, 0)
+  | fuel + 1, a, i, j, k =>
     if k < j then
-      if isMarkEnd (getI a k).2 then wipeA fuel a j (k + 1)
-      else let r := wipeA fuel (a.set k marker) j (k + 1); (r.1, r.2 + 1)
+      if isMarkEnd (getI a k).2 || decide ((getI a k).1 < (getI a i).1) then wipeA fuel a i j (k + 1)
+      else let r := wipeA fuel (a.set k marker) i j (k + 1); (r.1, r.2 + 1)
     else (a, 0)
 
 /-- `checkMerge(i, j)` on the array -/
@@ -92,7 +99,7 @@ def checkMergeA (a : List Item) (i j : Nat) : List Item × Nat :=
     let a1 := a.set i ((getI a j).1, (getI a i).2)
     let a2 := if (getI a1 j).2 ≥ (getI a1 i).2 then a1.set i ((getI a1 i).1, (getI a1 j).2) else a1
     let a3 := a2.set j marker
-    let r := wipeA (j - (i + 1)) a3 j (i + 1)
+    let r := wipeA (j - (i + 1)) a3 i j (i + 1)
     (r.1, r.2 + 1)
   else (a, 0)
 
@@ -101,7 +108,7 @@ def innerA : Nat → List Item → Nat → Nat → List Item × Nat
   | 0, a, _, _ => (a, 0)
   | fuel + 1, a, i, j =>
     if j < a.length then
-      if (getI a j).2 == 0 || (getI a i).2 == v4zero then innerA fuel a i (j + 1)
+      if (getI a j).2 == 0 then innerA fuel a i (j + 1)
       else
         let r := checkMergeA a i j
         let r2 := innerA fuel r.1 i (j + 1)
@@ -165,13 +172,13 @@ def to16 (len : Nat) (v : Nat) : Option Nat :=
 /-- `ip.To4() != nil` for a 16-byte value -/
 def isV4 (v : Nat) : Bool := v / 2 ^ 32 == 0xffff
 
-/-- `checkIPPair` + `InsertPair`: `none` = error -/
+/-- `checkIPPair` + `InsertPair` on raw 16-byte values: `none` = error, else the stored (encoded) entry -/
 def insertPair (s e : Option Nat) : Option Item :=
   match s, e with
   | some s, some e =>
     if isV4 s != isV4 e then none
     else if s > e then none
-    else some (s, e)
+    else some (encIP s, encIP e)
   | _, _ => none
 
 /-! Specification. -/
